@@ -77,8 +77,6 @@ def reverse_iter_lines(file_obj, blocksize=DEFAULT_BLOCKSIZE, preseek=True, enco
     except AttributeError:
         # BytesIO
         encoding = None
-    else:
-        encoding = 'utf-8'
 
     # need orig_obj to keep alive otherwise __del__ on the TextWrapper will close the file
     orig_obj = file_obj
